@@ -38,7 +38,7 @@ def cases(tier, seed):
         base = designs.op_cases([1, 3], ops='w+-*<xcsm', mul_max=3) + designs.op_cases([3], ops='w+', dests=('reg',))
         base += [dict(c, reset=5 % (1 << c['wd'])) for c in designs.op_cases([3], ops='w', dests=('reg',))]
         base += [dict(c, reset=0) for c in designs.op_cases([1, 3], ops='w+', dests=('reg',))]
-        base += designs.expr_cases(20, seed, n=6, maxw=4) + designs.seq_cases() + designs.misc_cases()[:10]
+        base += designs.expr_cases(20, seed, n=6, maxw=4) + designs.seq_cases() + designs.misc_cases()[:10] + designs.misc_cases()[-2:]
     else:
         base = designs.op_cases([1, 2, 3, 4, 8], ops='w~&|^n+-*<>=xcsm', mul_max=4) + designs.op_cases([1, 3, 8], ops='w+-', dests=('reg',))
         base += [dict(c, reset=(1 << c['wd']) - 1) for c in designs.op_cases([1, 3, 8], ops='w', dests=('reg',))]
@@ -257,10 +257,19 @@ def run_case(case, ob, tier):
     pair, mk = make_pair(case, A, B)
     if case['func'] == 'opt':
         gone = {r.name for r in A.wirevector_subset(pyrtl.Register)} - {r.name for r in B.wirevector_subset(pyrtl.Register)}
-        if gone:
-            # optimize() removed constant registers: the result may differ from the source until the steady state (the
-            # sanctioned difference decided under C04); only the source-side claims of this property are checked here
-            ob.notes.append('optimize eliminated registers: result-vs-source comparison left to C04')
+        nxt = {n.dests[0].name: n.args[0] for n in A.logic_subset('r')}
+        vs = Vars('k_')
+        sps = spec.run(A, 1, vs, reg_init='sym', mem_init='sym')
+
+        def const_next(g):
+            # the register's next-value is a compile-time constant: its term over arbitrary inputs and state folds to a numeral
+            w_ = nxt.get(g)
+            return w_ is not None and z3.is_bv_value(z3.simplify(sps.trace[w_.name][0]))
+        if gone and all(const_next(g) for g in gone):
+            # optimize() removed registers whose next-value is a constant: the result may differ from the source until the
+            # steady state (the sanctioned difference decided under C04); only the source-side claims are checked here.
+            # (registers that disappear for any other reason get no such allowance)
+            ob.notes.append('optimize eliminated constant registers: result-vs-source comparison left to C04')
             return
     equiv.bmc_outputs(ob, pair, K, v, site + ':result-vs-source:bmc-from-reset', reg_init='reset', memkeyB=mk, assume=assume)
     # an explicit reset_value (including 0) must win over a non-zero default_value in the copy as in the source
